@@ -33,6 +33,9 @@ type Stream struct {
 	eofAction   eofAction
 	reposition  bool
 	streamType  streamType
+
+	// lastEndOfStream is endOfStream as the last read found it, for UnreadByte and UnreadRune.
+	lastEndOfStream endOfStream
 }
 
 // NewInputTextStream creates a new input text stream backed by the given io.Reader.
@@ -119,6 +122,7 @@ func (s *Stream) Name() string {
 // ReadByte reads a byte from the underlying source.
 // It throws an error if the stream is not an input binary stream.
 func (s *Stream) ReadByte() (byte, error) {
+	s.lastEndOfStream = s.endOfStream
 	if err := s.initRead(); err != nil {
 		return 0, err
 	}
@@ -136,6 +140,11 @@ func (s *Stream) ReadByte() (byte, error) {
 }
 
 func (s *Stream) UnreadByte() error {
+	if s.endOfStream == endOfStreamPast {
+		s.unreadEndOfStream()
+		return nil
+	}
+
 	if err := s.initRead(); err != nil {
 		return err
 	}
@@ -155,6 +164,7 @@ func (s *Stream) UnreadByte() error {
 // ReadRune reads the next rune from the underlying source.
 // It throws an error if the stream is not an input text stream.
 func (s *Stream) ReadRune() (r rune, size int, err error) {
+	s.lastEndOfStream = s.endOfStream
 	if err := s.initRead(); err != nil {
 		return 0, 0, err
 	}
@@ -171,6 +181,11 @@ func (s *Stream) ReadRune() (r rune, size int, err error) {
 }
 
 func (s *Stream) UnreadRune() error {
+	if s.endOfStream == endOfStreamPast {
+		s.unreadEndOfStream()
+		return nil
+	}
+
 	if err := s.initRead(); err != nil {
 		return err
 	}
@@ -186,6 +201,14 @@ func (s *Stream) UnreadRune() error {
 		s.lastRuneSize = 0
 	}
 	return err
+}
+
+// unreadEndOfStream undoes a read that hit the end of the stream. No byte was consumed, so there is
+// nothing to put back: the stream is at its end again unless it had been past the end before that read.
+func (s *Stream) unreadEndOfStream() {
+	if s.lastEndOfStream != endOfStreamPast {
+		s.endOfStream = endOfStreamAt
+	}
 }
 
 // Seek sets the offset to the underlying source/sink.
